@@ -181,28 +181,31 @@ class JavaDataField(JavaBaseField):
 
     @cached_property
     def hash_code(self) -> str:
+        # The field is always written as `this.<name>`: a field called like a local variable or parameter of the generated
+        # method (`hashCode`, `other`, `obj`) would otherwise be shadowed by it.
+        field = f"this.{self.decl.java.name}"
         if self.decl.type_ref.type_def.name == "binary":
-            return f"java.util.Arrays.hashCode({self.decl.java.name})"
+            return f"java.util.Arrays.hashCode({field})"
         elif self.decl.type_ref.optional:
-            return f"({self.decl.java.name} == null ? 0 : {self.decl.java.name}.hashCode())"
+            return f"({field} == null ? 0 : {field}.hashCode())"
         elif self.decl.type_ref.type_def.java.typename == self.decl.type_ref.type_def.java.boxed:
             match self.decl.type_ref.type_def.name:
                 case "binary":
-                    return f"java.util.Arrays.hashCode({self.decl.java.name})"
+                    return f"java.util.Arrays.hashCode({field})"
                 case _:
-                    return f"{self.decl.java.name}.hashCode()"
+                    return f"{field}.hashCode()"
         else:
             match self.decl.type_ref.type_def.java.typename:
                 case "long":
-                    return f"((int) ({self.decl.java.name} ^ ({self.decl.java.name} >>> 32)))"
+                    return f"((int) ({field} ^ ({field} >>> 32)))"
                 case "float":
-                    return f"Float.floatToIntBits({self.decl.java.name})"
+                    return f"Float.floatToIntBits({field})"
                 case "double":
-                    return f"((int) (Double.doubleToLongBits({self.decl.java.name}) ^ (Double.doubleToLongBits({self.decl.java.name}) >>> 32)))"
+                    return f"((int) (Double.doubleToLongBits({field}) ^ (Double.doubleToLongBits({field}) >>> 32)))"
                 case "boolean":
-                    return f"({self.decl.java.name} ? 1 : 0)"
+                    return f"({field} ? 1 : 0)"
                 case _:
-                    return self.decl.java.name
+                    return field
 
     @cached_property
     def equals(self) -> str:
@@ -215,9 +218,9 @@ class JavaDataField(JavaBaseField):
         elif self.decl.type_ref.type_def.java.typename == self.decl.type_ref.type_def.java.boxed:
             match self.decl.type_ref.type_def.name:
                 case "binary":
-                    return f"java.util.Arrays.equals({self.decl.java.name}, other.{self.decl.java.name})"
+                    return f"java.util.Arrays.equals(this.{self.decl.java.name}, other.{self.decl.java.name})"
                 case _:
-                    return f"{self.decl.java.name}.equals(other.{self.decl.java.name})"
+                    return f"this.{self.decl.java.name}.equals(other.{self.decl.java.name})"
         else:
             return f"this.{self.decl.java.name} == other.{self.decl.java.name}"
 
